@@ -851,6 +851,8 @@ def C19(ctx):
         families.P("len-grows-3", families.SJ(3) + families.JJ(3), [dsl.ld("x", "sc"), dsl.br(1, 2, 3), dsl.fadd("y", 1), dsl.fadd("y", 1), dsl.fadd("y", 1)],
                    [dsl.fadd("x", 1, "sc")], [dsl.fadd("x", 1, "sc")]),
     ]]
+    # the program on which the thorough tier found F19 (a stored path of 9 entries comes back with capacity 16)
+    grow.append(dsl.normalize(json.load(open(os.path.join(os.path.dirname(os.path.abspath(__file__)), "f19_witness.json")))))
     GU = core.run_loom(ctx, grow, cfg_of=lambda p: {"iter_cap": 100000, "want_paths": True, "path_cap": 100000}, tag="unres_grow")
     lbase2 = lbase + [(p, u) for p, u in zip(grow, GU) if u["end"] == "ok"]
     for bi, (p, u) in enumerate(lbase2):
@@ -859,7 +861,7 @@ def C19(ctx):
             continue
         Lmax = max(lens)
         jstar = lens.index(Lmax) + 1
-        for k in sorted({2, jstar // 2, jstar - 1}):
+        for k in (range(2, jstar) if jstar <= 8 else sorted({2, jstar // 2, jstar - 1})):
             if 2 <= k < jstar:
                 f = os.path.join(ck, f"b{bi}_k{k}.json")
                 if os.path.exists(f):
